@@ -371,14 +371,21 @@ def untilComma : Txt → Txt
   | [] => []
   | c :: cs => if c == 44 then [] else c :: untilComma cs
 
-/-- `instruction_parser` with `parseAll=True`, and the operand list of `parse_instruction` -/
+/-- `n` further operand slots `Optional(Suppress(",")) + Optional(operand_rest)`: the operands found,
+    and the position after the last slot -/
+def restSlots : Nat → Txt → List RawOp × Txt
+  | 0, t => ([], t)
+  | n + 1, t =>
+    ((opt operandRest (optR (lit [44]) t)).1.toList ++ (restSlots n (opt operandRest (optR (lit [44]) t)).2).1,
+     (restSlots n (opt operandRest (optR (lit [44]) t)).2).2)
+
+/-- `instruction_parser` with `parseAll=True` (mnemonic, `operand1`, three slots for `operand2`–
+    `operand4`, comment), and the operand list of `parse_instruction` (the operands present, in
+    order) -/
 def instruction (t : Txt) : Option (Txt × List RawOp × Option Txt) :=
   (word isMnC (mnPrefixes t.length t)).bind fun (m, t1) =>
-  let o1 := opt operandFirst t1
-  let o2 := opt operandRest (optR (lit [44]) o1.2)
-  let o3 := opt operandRest (optR (lit [44]) o2.2)
-  let o4 := opt operandRest (optR (lit [44]) o3.2)
-  (tail o4.2).map fun c => (untilComma m, [o1.1, o2.1, o3.1, o4.1].filterMap id, c)
+    (tail (restSlots 3 (opt operandFirst t1).2).2).map fun c =>
+      (untilComma m, (opt operandFirst t1).1.toList ++ (restSlots 3 (opt operandFirst t1).2).1, c)
 
 /-! ### post-processing (`process_operand`) -/
 
